@@ -324,28 +324,17 @@ theorem validated_cost_exact {κ : Type} (ctx0 : κ) (opName : String) (max : In
     exact ⟨R, rfl, cost_eq_sat_ref ctx0 opName max dflt doc hdoc hd R href,
       accept_iff ctx0 opName max hmax hmax' dflt doc hdoc hd R href⟩
 
-/-! ## Connections with their default costs (pagination.go:226-235, 264-274, 434-442) -/
+/-! ## Connections with their default costs (pagination.go:226-235, 264-274, 434-442)
 
-/-- `defaultConnectionCost`: resolver cost 1, and the context carries `last` if given, else `first`
-    (0 if neither is an int). -/
-def connMaxCount (first last : Option Int) : Int :=
-  match last with
-  | some l => l
-  | none => first.getD 0
+  `ArgVal`, `connMaxCount`, `connectionCost`, `edgesCost`, `resolverEdgeLimit` are in Model.lean (the
+  driver evaluates them: the harness only tells the model how `first` / `last` are spelled). -/
 
-def connectionCost (first last : Option Int) : Int → FieldCost Int :=
-  fun _ => { ctx := some (connMaxCount first last), resolver := 1, multiplier := 0 }
-
-/-- The `edges` field: resolver cost 0, multiplier = the context's max edge count. -/
-def edgesCost : Int → FieldCost Int :=
-  fun k => { ctx := none, resolver := 0, multiplier := k }
-
-/-- **connection_charges_max_count** — for `conn(first|last: K) { edges { sels } }` with the default
-    costs, the reference cost is `M` for the connection itself plus the cost of `sels` under the
-    multiplier `M × effMul K` (K ≤ 1 counts as 1): the multiplier charged for every edge
-    sub-selection is `effMul K`. -/
+/-- **connection_charges_max_count** — for `conn(first: F, last: L) { edges { sels } }` with the
+    default costs, the reference cost is `M` for the connection itself plus the cost of `sels` under
+    the multiplier `M × effMul (connMaxCount F L)` (a count ≤ 1 counts as 1): the multiplier charged
+    for every edge sub-selection is `effMul (connMaxCount F L)`. -/
 theorem connection_charges_max_count (E : String → Nat → Int → Option Nat) (dflt : FieldCost Int)
-    (M : Nat) (c : Int) (first last : Option Int) (sels : List (Node Int)) :
+    (M : Nat) (c : Int) (first last : ArgVal) (sels : List (Node Int)) :
     Spec.refNode E dflt M c
       (.field (.fn (connectionCost first last)) [.other [.field (.fn edgesCost) [.other sels]]]) =
     (Spec.refList E dflt (M * Spec.effMul (connMaxCount first last)) (connMaxCount first last) sels).map
@@ -358,17 +347,50 @@ theorem connection_charges_max_count (E : String → Nat → Int → Option Nat)
   | none => rfl
   | some b => simp [Option.map]
 
+/-- **null_counts_as_absent** — an explicit `null` (literal or null-valued variable) for `first` or
+    `last` is charged exactly like an omitted argument: the cost function and the resolver both read
+    the arguments through the `.(int)` assertion. (A cost function keyed on the *presence* of `last`
+    would charge `{first: 20, last: null}` a multiplier of 1 for 20 edges.) -/
+theorem null_counts_as_absent (a : ArgVal) :
+    connMaxCount a .null = connMaxCount a .absent ∧ connMaxCount .null a = connMaxCount .absent a ∧
+    resolverEdgeLimit a .null = resolverEdgeLimit a .absent ∧
+    resolverEdgeLimit .null a = resolverEdgeLimit .absent a := by
+  cases a <;> simp [connMaxCount, resolverEdgeLimit, ArgVal.asInt]
+
+/-- **resolver_limit_eq_charged** — whenever the connection resolver accepts its arguments, the
+    number of edges it may return is exactly the max edge count the cost function put into the
+    context, for every spelling of `first` and `last` (absent, null, int). -/
+theorem resolver_limit_eq_charged (first last : ArgVal) (L : Int)
+    (h : resolverEdgeLimit first last = some L) : L = connMaxCount first last ∧ 0 ≤ L := by
+  cases first <;> cases last <;>
+    simp only [resolverEdgeLimit, connMaxCount, ArgVal.asInt] at h ⊢ <;>
+    (try cases h) <;> (split at h <;> simp_all <;> omega)
+
 /-- **edges_le_multiplier** — the number of edges a connection resolves never exceeds the multiplier
-    charged for them. The hypothesis is the connection's own guarantee (C09 `edges_le_first`: at most
-    `first` resp. `last` edges are returned; none at all when the arguments are rejected); the
-    harness counts resolved edges of served connections against the charged multiplier. -/
-theorem edges_le_multiplier (first last : Option Int) (edges : Nat)
-    (hC09 : edges = 0 ∨ (edges : Int) ≤ connMaxCount first last) :
+    charged for them, for every spelling of `first` / `last`. The hypothesis is the connection's own
+    guarantee (C09 `edges_le_first`): no edges when the resolver rejects its arguments, at most
+    `resolverEdgeLimit` edges otherwise; the harness counts resolved edges of served connections
+    against the charged multiplier for all 36 spellings. -/
+theorem edges_le_multiplier (first last : ArgVal) (edges : Nat)
+    (hC09 : match resolverEdgeLimit first last with
+            | none => edges = 0
+            | some L => (edges : Int) ≤ L) :
     edges ≤ Spec.effMul (connMaxCount first last) := by
-  unfold Spec.effMul
-  rcases hC09 with h | h
-  · subst h; split <;> omega
-  · split <;> omega
+  cases hl : resolverEdgeLimit first last with
+  | none =>
+    rw [hl] at hC09
+    simp only at hC09
+    subst hC09
+    unfold Spec.effMul; split <;> omega
+  | some L =>
+    rw [hl] at hC09
+    simp only at hC09
+    obtain ⟨he, h0⟩ := resolver_limit_eq_charged first last L hl
+    rw [← he]
+    unfold Spec.effMul; split <;> omega
+
+-- the seeded shape: first = 20, last = null → 20 edges may be resolved and 20 are charged
+example : resolverEdgeLimit (.int 20) .null = some 20 ∧ connMaxCount (.int 20) .null = 20 := by decide
 
 /-! ## Non-vacuity: concrete requests, evaluated by the kernel -/
 
